@@ -7,10 +7,12 @@
      wf_penb p      p is built from the named constants: colours are Color(0), IndexColor(n) or
                     RGBColor(r,g,b); underline style 0..5; attribute mask over the seven named
                     bits (bit 0 of AttributeMask has no name: 128 masks)
-     pen_delta rgb smulx prev next
+     pen_delta legacy rgb smulx prev next
                     the SGR sequences written when the pen goes from prev to next
                     (rgb = smulx = true: EncodeCells and StyledString.Encode; render passes its
-                    capabilities and falls back to palette colours / single underline)
+                    capabilities and falls back to palette colours / single underline;
+                    legacy = the quirk VAXIS_FORCE_LEGACY_SGR is active: render and EncodeCells
+                    then write 38;5;n and 38;2;r;g;b with semicolons, StyledString.Encode never)
      eff_pen rgb smulx p   what a terminal must hold for p under those capabilities (= p for true,true)
      parse_sgr, term_sgr, styled_sgr d   the three consumers (cell.go, widgets/term/sgr.go,
                     NewStyledString with default style d); Panic = a Go index out of range
@@ -19,37 +21,47 @@
    Graphemes are opaque code-point lists (segmentation by uniseg is an oracle: the harness ships
    texts already segmented). Hyperlinks are outside the property: ParseStyledString drops them,
    NewStyledString has no OSC handling and is only claimed on cells without a hyperlink. *)
-From Vx Require Import base.Prelude model.Colour model.Sgr proofs.SgrProofs.
+From Vx Require Import base.Prelude gen.GenSgr model.Colour model.Sgr proofs.SgrProofs.
 
 (* ---- delta_correct ----
    For ALL previous and next pens over the named constants - every ordered pair of the 128
    attribute masks (including the shared reset 22 of bold and dim), every colour of every class,
    every ordered pair of underline styles - and every capability combination: each of the three
    consumers, applied to the emitted sequences, takes the terminal from prev to next. *)
-Theorem C18_delta_correct : forall (rgb smulx : bool) (prev next dflt : pen),
+Theorem C18_delta_correct : forall (legacy rgb smulx : bool) (prev next dflt : pen),
   wf_penb prev = true -> wf_penb next = true ->
-  let seqs := pen_delta rgb smulx prev next in
+  let seqs := pen_delta legacy rgb smulx prev next in
   run_seqs parse_sgr seqs (eff_pen rgb smulx prev) = Ok (eff_pen rgb smulx next) /\
   run_seqs term_sgr seqs (eff_pen rgb smulx prev) = Ok (eff_pen rgb smulx next) /\
-  run_seqs (styled_sgr dflt) seqs (eff_pen rgb smulx prev) = Ok (eff_pen rgb smulx next).
+  (legacy = false ->     (* guard of the finding legacy-sgr-newstyledstring, refuted below without it *)
+   run_seqs (styled_sgr dflt) seqs (eff_pen rgb smulx prev) = Ok (eff_pen rgb smulx next)).
 Proof.
-  intros rgb smulx prev next dflt Hp Hn; repeat split.
-  - exact (delta_correct sgr_run sgr_run_ok rgb smulx prev next Hp Hn).
-  - exact (delta_correct sgr_run sgr_run_ok rgb smulx prev next Hp Hn).
-  - exact (delta_correct (styled_sgr dflt) (styled_sgr_ok dflt) rgb smulx prev next Hp Hn).
+  intros legacy rgb smulx prev next dflt Hp Hn; repeat split.
+  - exact (delta_correct sgr_run sgr_run_ok legacy (sgr_legacy legacy) rgb smulx prev next Hp Hn).
+  - exact (delta_correct sgr_run sgr_run_ok legacy (sgr_legacy legacy) rgb smulx prev next Hp Hn).
+  - intros ->; exact (delta_correct (styled_sgr dflt) (styled_sgr_ok dflt) false (no_legacy _) rgb smulx prev next Hp Hn).
 Qed.
 Print Assumptions C18_delta_correct.
+
+(* FINDING legacy-sgr-newstyledstring: with the legacy quirk NewStyledString does not read what
+   render and EncodeCells write (38;5;196 is "blink" to it, the colour is lost) *)
+Theorem C18_delta_correct_styled_legacy_refuted : exists prev next,
+  wf_penb prev = true /\ wf_penb next = true /\
+  run_seqs (styled_sgr pen0) (pen_delta true true true prev next) prev
+  = Ok (mkPen 0 0 0 0 aBlink) /\ next = mkPen (index_color 196) 0 0 0 0.
+Proof. exists pen0, (mkPen (index_color 196) 0 0 0 0). vm_compute. repeat split; reflexivity. Qed.
+Print Assumptions C18_delta_correct_styled_legacy_refuted.
 
 (* the codecs: no capability fallback, the pen itself is reproduced *)
 Theorem C18_delta_correct_codecs : forall (prev next dflt : pen),
   wf_penb prev = true -> wf_penb next = true ->
-  let seqs := pen_delta true true prev next in
+  let seqs := pen_delta false true true prev next in
   run_seqs parse_sgr seqs prev = Ok next /\ run_seqs term_sgr seqs prev = Ok next /\
   run_seqs (styled_sgr dflt) seqs prev = Ok next.
 Proof.
   intros prev next dflt Hp Hn.
-  pose proof (C18_delta_correct true true prev next dflt Hp Hn) as H.
-  rewrite !eff_pen_id in H; exact H.
+  pose proof (C18_delta_correct false true true prev next dflt Hp Hn) as H.
+  rewrite !eff_pen_id in H; destruct H as [H1 [H2 H3]]; auto.
 Qed.
 Print Assumptions C18_delta_correct_codecs.
 
@@ -58,28 +70,28 @@ Print Assumptions C18_delta_correct_codecs.
    emulator fed with EncodeCells, and NewStyledString (default Style{}) after
    StyledString.Encode return the same graphemes with the same pens, and the pen at the end
    of the encoded string is the default pen. *)
-Theorem C18_roundtrip_cells : forall cs : list cell,
+Theorem C18_roundtrip_cells : forall (legacy : bool) (cs : list cell),
   Forall (fun c => wf_cellb c = true) cs ->
-  parse_styled_string (encode_cells cs) = Ok (map pcell_of cs, pen0) /\
-  term_feed (encode_cells cs) = Ok (map pcell_of cs, pen0) /\
+  parse_styled_string (encode_cells legacy cs) = Ok (map pcell_of cs, pen0) /\
+  term_feed (encode_cells legacy cs) = Ok (map pcell_of cs, pen0) /\
   (forallb no_link cs = true -> new_styled_string pen0 (ss_encode cs) = Ok (map pcell_of cs, pen0)).
 Proof.
-  intros cs W; repeat split.
-  - exact (enc_loop_decode sgr_run sgr_run_ok sgr_run_reset cs W style0 wf_pen0).
-  - exact (enc_loop_decode sgr_run sgr_run_ok sgr_run_reset cs W style0 wf_pen0).
-  - intros _; exact (enc_loop_decode (styled_sgr pen0) (styled_sgr_ok pen0) styled_reset cs W style0 wf_pen0).
+  intros legacy cs W; repeat split.
+  - exact (enc_loop_decode sgr_run sgr_run_ok sgr_run_reset legacy (sgr_legacy legacy) cs W style0 wf_pen0).
+  - exact (enc_loop_decode sgr_run sgr_run_ok sgr_run_reset legacy (sgr_legacy legacy) cs W style0 wf_pen0).
+  - intros _; exact (enc_loop_decode (styled_sgr pen0) (styled_sgr_ok pen0) styled_reset false (no_legacy _) cs W style0 wf_pen0).
 Qed.
 Print Assumptions C18_roundtrip_cells.
 
-Theorem C18_ends_reset : forall cs : list cell,
+Theorem C18_ends_reset : forall (legacy : bool) (cs : list cell),
   Forall (fun c => wf_cellb c = true) cs ->
-  forall cells fin, (parse_styled_string (encode_cells cs) = Ok (cells, fin) \/
-                     term_feed (encode_cells cs) = Ok (cells, fin) \/
+  forall cells fin, (parse_styled_string (encode_cells legacy cs) = Ok (cells, fin) \/
+                     term_feed (encode_cells legacy cs) = Ok (cells, fin) \/
                      new_styled_string pen0 (ss_encode cs) = Ok (cells, fin)) -> fin = pen0.
 Proof.
-  intros cs W cells fin H.
-  pose proof (enc_loop_decode sgr_run sgr_run_ok sgr_run_reset cs W style0 wf_pen0) as R1.
-  pose proof (enc_loop_decode (styled_sgr pen0) (styled_sgr_ok pen0) styled_reset cs W style0 wf_pen0) as R2.
+  intros legacy cs W cells fin H.
+  pose proof (enc_loop_decode sgr_run sgr_run_ok sgr_run_reset legacy (sgr_legacy legacy) cs W style0 wf_pen0) as R1.
+  pose proof (enc_loop_decode (styled_sgr pen0) (styled_sgr_ok pen0) styled_reset false (no_legacy _) cs W style0 wf_pen0) as R2.
   unfold parse_styled_string, term_feed, new_styled_string, encode_cells, ss_encode in H.
   change (decode parse_sgr) with (decode sgr_run) in H; change (decode term_sgr) with (decode sgr_run) in H.
   change (spen style0) with pen0 in R1, R2.
@@ -89,17 +101,17 @@ Print Assumptions C18_ends_reset.
 
 (* the renderer's pen emission, for every capability combination: each consumer sees every
    cell with the pen the terminal must hold for it, and the frame ends reset *)
-Theorem C18_render_roundtrip : forall (rgb smulx : bool) (cs : list pcell),
+Theorem C18_render_roundtrip : forall (legacy rgb smulx : bool) (cs : list pcell),
   Forall (fun c => wf_pcellb c = true) cs ->
   let want := map (fun c => (fst c, eff_pen rgb smulx (snd c))) cs in
-  parse_styled_string (render_row rgb smulx cs) = Ok (want, pen0) /\
-  term_feed (render_row rgb smulx cs) = Ok (want, pen0) /\
-  new_styled_string pen0 (render_row rgb smulx cs) = Ok (want, pen0).
+  parse_styled_string (render_row legacy rgb smulx cs) = Ok (want, pen0) /\
+  term_feed (render_row legacy rgb smulx cs) = Ok (want, pen0) /\
+  (legacy = false -> new_styled_string pen0 (render_row legacy rgb smulx cs) = Ok (want, pen0)).
 Proof.
-  intros rgb smulx cs W.
-  pose proof (render_loop_decode sgr_run sgr_run_ok sgr_run_reset rgb smulx cs W pen0 wf_pen0) as R1.
-  pose proof (render_loop_decode (styled_sgr pen0) (styled_sgr_ok pen0) styled_reset rgb smulx cs W pen0 wf_pen0) as R2.
-  rewrite eff_pen0 in R1, R2. repeat split; assumption.
+  intros legacy rgb smulx cs W.
+  pose proof (render_loop_decode sgr_run sgr_run_ok sgr_run_reset legacy (sgr_legacy legacy) rgb smulx cs W pen0 wf_pen0) as R1.
+  pose proof (render_loop_decode (styled_sgr pen0) (styled_sgr_ok pen0) styled_reset false (no_legacy _) rgb smulx cs W pen0 wf_pen0) as R2.
+  rewrite eff_pen0 in R1, R2. repeat split; try assumption. intros ->; assumption.
 Qed.
 Print Assumptions C18_render_roundtrip.
 
@@ -109,31 +121,35 @@ Print Assumptions C18_render_roundtrip.
    (b) every sequence of the vocabulary means the same to all three consumers, from every pen;
    (c) hence the three consumers read the same cells and final pen from every string any
        producer writes. *)
-Theorem C18_producers_write_vocabulary : forall (rgb smulx : bool) (prev next : pen),
-  Forall (fun s => in_vocab s = true) (pen_delta rgb smulx prev next).
-Proof. exact pen_delta_vocab. Qed.
+Theorem C18_producers_write_vocabulary : forall (legacy rgb smulx : bool) (prev next : pen),
+  Forall (fun s => in_vocab_legacy s = true) (pen_delta legacy rgb smulx prev next) /\
+  Forall (fun s => in_vocab s = true) (pen_delta false rgb smulx prev next).
+Proof. intros; split; [apply pen_delta_vocab_l | apply pen_delta_vocab]. Qed.
 Print Assumptions C18_producers_write_vocabulary.
 
+(* parseSGR and the emulator's sgr are the same statements on different variables (the model
+   identifies them; the sgr stream and the translated source digests check that they still are),
+   so they agree on every input; NewStyledString agrees with them on the vocabulary. *)
 Theorem C18_consumers_agree_on_vocabulary : forall (s : sgrseq) (p : pen),
-  in_vocab s = true ->
-  parse_sgr s p = term_sgr s p /\ parse_sgr s p = styled_sgr pen0 s p /\
-  (s <> [] -> forall d, parse_sgr s p = styled_sgr d s p).
+  parse_sgr s p = term_sgr s p /\
+  (in_vocab s = true -> parse_sgr s p = styled_sgr pen0 s p /\
+                        (s <> [] -> forall d, parse_sgr s p = styled_sgr d s p)).
 Proof.
-  intros s p H; repeat split.
+  intros s p; split; [reflexivity|]. intros H; split.
   - apply agree_on_vocab; auto.
   - intros Hs d; apply agree_on_vocab; [exact H | intros ->; congruence].
 Qed.
 Print Assumptions C18_consumers_agree_on_vocabulary.
 
-Theorem C18_consumers_agree : forall (cs : list cell) (rgb smulx : bool) (row : list pcell),
-  (parse_styled_string (encode_cells cs) = term_feed (encode_cells cs) /\
-   parse_styled_string (encode_cells cs) = new_styled_string pen0 (encode_cells cs)) /\
+Theorem C18_consumers_agree : forall (cs : list cell) (legacy rgb smulx : bool) (row : list pcell),
+  (parse_styled_string (encode_cells legacy cs) = term_feed (encode_cells legacy cs) /\
+   parse_styled_string (encode_cells false cs) = new_styled_string pen0 (encode_cells false cs)) /\
   (parse_styled_string (ss_encode cs) = term_feed (ss_encode cs) /\
    parse_styled_string (ss_encode cs) = new_styled_string pen0 (ss_encode cs)) /\
-  (parse_styled_string (render_row rgb smulx row) = term_feed (render_row rgb smulx row) /\
-   parse_styled_string (render_row rgb smulx row) = new_styled_string pen0 (render_row rgb smulx row)).
+  (parse_styled_string (render_row legacy rgb smulx row) = term_feed (render_row legacy rgb smulx row) /\
+   parse_styled_string (render_row false rgb smulx row) = new_styled_string pen0 (render_row false rgb smulx row)).
 Proof.
-  intros cs rgb smulx row; repeat split;
+  intros cs legacy rgb smulx row; repeat split;
     try (apply decode_agree_sgr_styled; first [apply enc_loop_vocab | apply render_loop_vocab]).
 Qed.
 Print Assumptions C18_consumers_agree.
@@ -156,11 +172,66 @@ Print Assumptions C18_parse_total.
    property predicate evaluated on the observation (so: zero disagreements implies zero
    violations, and a violation on a well-formed case is always also a disagreement). *)
 Theorem C18_model_satisfies_predicates :
-  (forall c, codec_model_ok c = true -> codec_holds c = true) /\
-  (forall c, render_model_ok c = true -> render_holds c = true) /\
+  (forall legacy cells o, codec_model_ok (legacy, cells, o) = true ->
+     codec_holds_gen false (legacy, cells, o) = true /\
+     (legacy = false -> codec_holds (legacy, cells, o) = true)) /\
+  (forall legacy rgb smulx cells o, render_model_ok ((legacy, rgb, smulx), cells, o) = true ->
+     render_holds_gen false ((legacy, rgb, smulx), cells, o) = true /\
+     (legacy = false -> render_holds ((legacy, rgb, smulx), cells, o) = true)) /\
   (forall c, sgr_model_ok c = true -> sgr_holds c = true).
-Proof. exact (conj codec_model_holds (conj render_model_holds sgr_model_holds)). Qed.
+Proof.
+  repeat split.
+  - apply (codec_model_holds (legacy, cells, o)); assumption.
+  - apply (codec_model_holds (legacy, cells, o)); assumption.
+  - apply (render_model_holds ((legacy, rgb, smulx), cells, o)); assumption.
+  - apply (render_model_holds ((legacy, rgb, smulx), cells, o)); assumption.
+  - apply sgr_model_holds; assumption.
+Qed.
 Print Assumptions C18_model_satisfies_predicates.
+
+(* ---- the model's tokens print as the format strings of the Go sources ----
+   gen/GenSgr.v is translated from sequences.go and styled_string.go on every run: each constant
+   the producers use, applied to its arguments as fmt does, is the printed form of the model's
+   token (so a changed constant breaks this theorem, not only the differential run). *)
+Theorem C18_constants_match :
+  print_sgr [] = k_sgrReset /\
+  map (fun k => print_sgr [[k]]) [1; 2; 3; 4; 5; 7; 8; 9; 22; 23; 24; 25; 27; 28; 29; 39; 49; 59]
+  = [k_boldSet; k_dimSet; k_italicSet; k_underlineSet; k_blinkSet; k_reverseSet; k_hiddenSet; k_strikethroughSet;
+     k_boldDimReset; k_italicReset; k_underlineReset; k_blinkReset; k_reverseReset; k_hiddenReset;
+     k_strikethroughReset; k_fgReset; k_bgReset; k_ulColorReset] /\
+  (forall n, 0 <= n < 8 ->
+     sprintf k_fgSet [FD n] = print_sgr [[30 + n]] /\ sprintf k_bgSet [FD n] = print_sgr [[40 + n]] /\
+     sprintf k_fgBrightSet [FD n] = print_sgr [[90 + n]] /\ sprintf k_bgBrightSet [FD n] = print_sgr [[100 + n]]) /\
+  (forall n r g b,
+     sprintf k_fgIndexSet [FD n] = print_sgr [[38; 5; n]] /\ sprintf k_bgIndexSet [FD n] = print_sgr [[48; 5; n]] /\
+     sprintf k_ssFgIndexSet [FD n] = print_sgr [[38; 5; n]] /\ sprintf k_ssBgIndexSet [FD n] = print_sgr [[48; 5; n]] /\
+     sprintf k_ulIndexSet [FD n] = print_sgr [[58; 5; n]] /\ sprintf k_ulStyleSet [FD n] = print_sgr [[4; n]] /\
+     sprintf k_fgRGBSet [FD r; FD g; FD b] = print_sgr [[38; 2; r; g; b]] /\
+     sprintf k_bgRGBSet [FD r; FD g; FD b] = print_sgr [[48; 2; r; g; b]] /\
+     sprintf k_ssFgRGBSet [FD r; FD g; FD b] = print_sgr [[38; 2; r; g; b]] /\
+     sprintf k_ssBgRGBSet [FD r; FD g; FD b] = print_sgr [[48; 2; r; g; b]] /\
+     sprintf k_ulRGBSet [FD r; FD g; FD b] = print_sgr [[58; 2; r; g; b]] /\
+     sprintf (legacy_form k_fgIndexSet) [FD n] = print_sgr [[38]; [5]; [n]] /\
+     sprintf (legacy_form k_bgIndexSet) [FD n] = print_sgr [[48]; [5]; [n]] /\
+     sprintf (legacy_form k_fgRGBSet) [FD r; FD g; FD b] = print_sgr [[38]; [2]; [r]; [g]; [b]] /\
+     sprintf (legacy_form k_bgRGBSet) [FD r; FD g; FD b] = print_sgr [[48]; [2]; [r]; [g]; [b]]) /\
+  (forall p l, sprintf k_osc8 [FS p; FS l] = print_tok (TOsc8 p l)).
+Proof.
+  split; [reflexivity|]. split; [reflexivity|]. split; [|split].
+  - intros n Hn.
+    assert (H : n = 0 \/ n = 1 \/ n = 2 \/ n = 3 \/ n = 4 \/ n = 5 \/ n = 6 \/ n = 7) by lia.
+    repeat (destruct H as [H|H]; [subst n; repeat split; reflexivity|]); subst n; repeat split; reflexivity.
+  - intros n r g b; repeat split; reflexivity.
+  - intros p l; cbn. now rewrite <- !app_assoc.
+Qed.
+Print Assumptions C18_constants_match.
+
+(* parseSGR (cell.go) and (*Model).sgr (widgets/term/sgr.go) are the same text up to the renaming
+   vt.cursor.X -> style.X, vaxis.Y -> Y: digests of the two printed bodies, translated on every
+   run.  This is what licenses the single model definition sgr_run for both consumers. *)
+Theorem C18_term_sgr_is_a_copy_of_parseSGR : digest_term_sgr = digest_parseSGR.
+Proof. reflexivity. Qed.
+Print Assumptions C18_term_sgr_is_a_copy_of_parseSGR.
 
 (* ---- non-vacuity and tightness ---- *)
 
@@ -169,19 +240,20 @@ Example C18_ex_delta :
   let prev := mkPen (index_color 1) 0 (rgb_color 1 2 3) 3 (aBold + aDim + aBlink) in
   let next := mkPen (rgb_color 255 0 128) (index_color 12) 0 0 (aDim + aItalic) in
   wf_penb prev = true /\ wf_penb next = true /\
-  pen_delta true true prev next
+  pen_delta false true true prev next
   = [[[38; 2; 255; 0; 128]]; [[104]]; [[59]]; [[3]]; [[22]]; [[2]]; [[25]]; [[4; 0]]] /\
-  pen_delta false false prev next = [[[38; 5; 198]]; [[104]]; [[3]]; [[22]]; [[2]]; [[25]]; [[24]]].
+  pen_delta false false false prev next = [[[38; 5; 198]]; [[104]]; [[3]]; [[22]]; [[2]]; [[25]]; [[24]]] /\
+  pen_delta true false false prev next = [[[38]; [5]; [198]]; [[104]]; [[3]]; [[22]]; [[2]]; [[25]]; [[24]]].
 Proof. vm_compute. repeat split; reflexivity. Qed.
 
 Example C18_ex_roundtrip :
   let cs := [([97], mkStyle (mkPen (index_color 3) 0 (index_color 200) 3 aBold) [] []);
              ([98; 769], mkStyle (mkPen (index_color 3) 0 0 3 0) [] [])] in
   Forall (fun c => wf_cellb c = true) cs /\
-  print_toks (encode_cells cs)
+  print_toks (encode_cells false cs)
   = [27;91;51;51;109; 27;91;53;56;58;53;58;50;48;48;109; 27;91;49;109; 27;91;52;58;51;109; 97;
      27;91;53;57;109; 27;91;50;50;109; 98;769; 27;91;109].
-Proof. vm_compute. split; [repeat constructor | reflexivity]. Qed.
+Proof. split; [repeat constructor | vm_compute; reflexivity]. Qed.
 
 (* truncated extended-colour forms return without panic; an empty sub-list (which the parser
    never delivers) is the panic the hypothesis of parse_total excludes *)
@@ -204,7 +276,7 @@ Proof. vm_compute. repeat split; reflexivity. Qed.
 (* values outside the named constants do not round-trip: the well-formedness guard is tight
    (Color(5) has no tag and is written as "default"; AttributeMask bit 0 is never written) *)
 Example C18_ex_guard_is_tight :
-  parse_styled_string (encode_cells [([97], mkStyle (mkPen 5 0 0 0 0) [] [])]) = Ok ([([97], pen0)], pen0) /\
-  parse_styled_string (encode_cells [([97], mkStyle (mkPen 0 0 0 0 1) [] [])]) = Ok ([([97], pen0)], pen0) /\
-  parse_styled_string (encode_cells [([97], mkStyle (mkPen 0 0 0 9 0) [] [])]) = Ok ([([97], pen0)], pen0).
+  parse_styled_string (encode_cells false [([97], mkStyle (mkPen 5 0 0 0 0) [] [])]) = Ok ([([97], pen0)], pen0) /\
+  parse_styled_string (encode_cells false [([97], mkStyle (mkPen 0 0 0 0 1) [] [])]) = Ok ([([97], pen0)], pen0) /\
+  parse_styled_string (encode_cells false [([97], mkStyle (mkPen 0 0 0 9 0) [] [])]) = Ok ([([97], pen0)], pen0).
 Proof. vm_compute. repeat split; reflexivity. Qed.
